@@ -355,6 +355,10 @@ func (h *encHandshake) decodeAuthResp(auth []byte, prv *ecdsa.PrivateKey) error 
 	if err != nil {
 		return err
 	}
+	// importPublicKey yields nil coordinates for 64 bytes that are not a point of the curve
+	if h.remoteRandomPub.X == nil || h.remoteRandomPub.Y == nil {
+		return errors.New("invalid ephemeral public key in auth response")
+	}
 	// ignore token flag for now
 	return nil
 }
